@@ -19,6 +19,7 @@ type config struct {
 	search bool
 	scale  int // volume multiplier: 1 quick, 20 thorough (x3 more in search mode)
 	corpus string
+	outPath string
 }
 
 var props = map[string]func(*config){}
@@ -43,7 +44,7 @@ func main() {
 		os.Exit(2)
 	}
 	s, _ := strconv.ParseUint(*seed, 10, 64)
-	c := &config{seed: s, tier: *tier, out: newOut(*outp), replay: *replay, search: *search, scale: 1, corpus: *corpus}
+	c := &config{seed: s, tier: *tier, out: newOut(*outp), replay: *replay, search: *search, scale: 1, corpus: *corpus, outPath: *outp}
 	if *tier == "thorough" {
 		c.scale = 20
 	}
